@@ -72,7 +72,10 @@ def make_pairs(ctx, n_types, depth):
     # always present: dynamic arrays whose elements need no clamp (bulk-copy path: the count check is the only guard)
     must = [("darr", ("uint", 256), 2), ("darr", ("tuple", (("int", 256), ("bytesM", 32))), 2),
             # dynamic tuples reached through an offset (their static footprint check is the only guard for the head)
-            ("darr", ("tuple", (("uint", 256), ("bytes", 3))), 2), ("tuple", (("tuple", (("uint", 256), ("bytes", 3))), ("uint", 8)))]
+            ("darr", ("tuple", (("uint", 256), ("bytes", 3))), 2), ("tuple", (("tuple", (("uint", 256), ("bytes", 3))), ("uint", 8))),
+            # static aggregates of full-width words (needs_clamp false: only the size check guards returndata)
+            ("sarr", ("uint", 256), 3), ("tuple", (("uint", 256), ("sarr", ("uint", 256), 2))),
+            ("sarr", ("sarr", ("bytesM", 32), 1), 3), ("uint", 256)]
     cands = must + directed[: max(8, n_types // 2)] + [A.gen_type(r, r.randint(1, depth), budget=900) for _ in range(4 * n_types)]
     for t in cands:
         if t not in seen and len(types) < n_types:
@@ -160,7 +163,7 @@ def classify(kind, canonical, exp, ok, out, base):
         return "ok", ""
     if canonical:
         return "failing", "canonical encoding of an in-type value was rejected"
-    if kind in ("call", "mem", "ret"):
+    if kind in ("call", "mem", "ret", "memnt"):
         return "corr", "model accepts this non-canonical input but the contract reverts"
     return "ok", ""   # constructor arguments: one-directional check only
 
@@ -222,10 +225,11 @@ def run(ctx):
     bases = A.coq_hex_batch([f"enc (TTuple [{A.coq_ty(t)}]) (VList [{A.coq_val(t, v)}])" for t, v in flat], "c05base")
     # ---- phase 2: expectations for the corruption stream
     sel_of = {}
-    exprs, corr, agree_exprs = [], [], []
+    exprs, corr, agree_exprs, nt_exprs = [], [], [], []
 
     def used(kind, j):
-        u = {"mem": j % 2 == 0 or j < 8, "ret": j % 5 == 0 or j < 4, "ctor": j % 7 == 0 or j < 3}
+        # (truncations/extensions come first in the corruption list: all of the first 24 go to every entry point)
+        u = {"mem": j % 2 == 0 or j < 24, "ret": j % 5 == 0 or j < 24, "ctor": j % 7 == 0 or j < 3}
         return (u["mem"] or u["ret"] or u["ctor"]) if kind == "pay" else u[kind]
 
     for (t, v), base in zip(flat, bases):
@@ -242,11 +246,19 @@ def run(ctx):
         exprs.append(pre + (f"join (expect_len t [1;2;3;4] base {lst()})" if has_len else 'EmptyString'))
         exprs.append(pre + f"join (expect_mem t base {lst('mem')})")
         exprs.append(pre + f"join (expect_ret t base {lst('ret')})")
+        if t[0] in A.SCALARS:
+            # bare-word abi_decode(unwrap_tuple=False): the type is NOT wrapped; same corrupted payloads
+            nt_exprs.append(f"let t := {A.coq_ty(t)} in let base := enc t {A.coq_val(t, v)} in "
+                            f"join (expect_mem t base {lst('mem')})")
+        else:
+            nt_exprs.append(None)
         agree_exprs.append(pre + f"[impl_agree t base {lst('mem')}]")
     import time
     t0 = time.time()
     outs = A.coq_strings(exprs, "c05exp", imports=IMPORTS, shard=10, timeout=400)
     ctx.log(f"coq expectations: {len(exprs)} expressions in {time.time() - t0:.1f}s")
+    nt_idx = [i for i, e in enumerate(nt_exprs) if e is not None]
+    nt_outs = dict(zip(nt_idx, A.coq_strings([nt_exprs[i] for i in nt_idx], "c05nt", imports=IMPORTS, shard=10))) if nt_idx else {}
     # implementation-level decoder models (DecImpl.v) on the same corrupted payloads
     t0 = time.time()
     sub = agree_exprs if not quick else agree_exprs[::2]
@@ -275,6 +287,7 @@ def run(ctx):
             e_len = outs[5 * k + 2].split(",") if has_len else []
             e_mem = iter(outs[5 * k + 3].split(","))
             e_ret = iter(outs[5 * k + 4].split(","))
+            e_nt = iter(nt_outs[k].split(",")) if k in nt_outs else None
             assert len(e_call) == len(cs), (len(e_call), len(cs))
             ins, ms = [], []
             for j, (cterm, fn) in enumerate(cs):
@@ -288,6 +301,9 @@ def run(ctx):
                 if used("mem", j):
                     ins.append(("mem", data))
                     ms.append(("mem", cterm, next(e_mem) + "|" + lenient, data))
+                    if e_nt is not None:
+                        ins.append(("memnt", data))
+                        ms.append(("memnt", cterm, next(e_nt), data))
                 if used("ret", j):
                     ins.append(("ret", data))
                     ms.append(("ret", cterm, next(e_ret) + "|" + lenient, data))
@@ -309,7 +325,7 @@ def run(ctx):
         results = list(ex.map(H.run_job, jobs, chunksize=2))
     ctx.log(f"echo executions: {len(jobs)} jobs in {time.time() - t0:.1f}s")
     n = 0
-    stats = {"call": 0, "len": 0, "mem": 0, "ret": 0, "ctor": 0, "accepted": 0, "rejected": 0, "accepted_noncanonical": 0,
+    stats = {"call": 0, "len": 0, "mem": 0, "memnt": 0, "ret": 0, "ctor": 0, "accepted": 0, "rejected": 0, "accepted_noncanonical": 0,
              "model_accepts_contract_rejects_payload": 0}
     nfail = 0
     for (t, vals, src, cfg, metas, bl), res in zip(jm, results):
@@ -342,7 +358,7 @@ def run(ctx):
                 nfail += 1
                 if nfail > 6:
                     continue
-                how = {"call": "call echo(x) with calldata = selector ++ input", "len": "call ln(x) with calldata = selector ++ input", "mem": "call dec(b) with b = input (abi_decode)",
+                how = {"call": "call echo(x) with calldata = selector ++ input", "len": "call ln(x) with calldata = selector ++ input", "mem": "call dec(b) with b = input (abi_decode)", "memnt": "call dec_nt(b) with b = input (abi_decode, unwrap_tuple=False)",
                        "ctor": "deploy initcode ++ input, then call get()", "ret": "viaret(a): callee a returns input as returndata"}[kind]
                 detail = {"source": src, "config": cfg.name, "entry": kind, "how": how, "type": A.eth_ty(t),
                           "value": repr(vals[vi]), "corruption": cterm, "input_hex": data.hex(),
